@@ -460,6 +460,9 @@ def c_flat(ctx, it, cfg):
     for x in X:
         tot = tot + (x.shape[0] if isinstance(x, ArrBase) else 1)
     ctx.prove('flat-is-1d-of-total-length', and_(isinstance(flat, ArrBase) and flat.ndim == 1, eq(flat.shape[0], tot)))
+    # the flat vector is a NEW array: the iterators accumulate stages in place on what they are handed (dxdtsum = k1; dxdtsum += ...), so a flat vector
+    # that aliased an entry of the model's own state or derivative would be overwritten by the integrator
+    ctx.prove('flat-vector-does-not-alias-the-state', all(flat is not x and getattr(flat, 'base', None) is not x for x in X))
     # the reference may hold different values (the solver unflattens derivative / new-state vectors)
     ref = [x if not isinstance(x, ArrBase) else array(ctx, 'ref%d' % k, x.shape) for k, x in enumerate(X)]
     ref = [r if isinstance(r, ArrBase) else real(ctx, 'refs%d' % k) for k, r in enumerate(ref)]
